@@ -172,6 +172,15 @@ def cases(rng, tier):
     for rep, ax in [(2, None), (2, 0), (3, 1), ([1, 2], 0), ([2, 0, 1], 1), (1, -1), ([0, 3], 0)]:
         yield ("repeat", (lambda rep=rep, ax=ax: lambda t: mg.repeat(t, rep, axis=ax))(), [V((2, 3))], dict(repeats=rep, axis=ax), None)
     yield ("repeat", lambda t: mg.repeat(t, 3), [V(())], dict(repeats=3, shape=()), None)
+    # 0-d operands of reductions with an explicit axis / keepdims (whatever the forward pass accepts, the backward pass must differentiate)
+    for nm0, fn0 in [("sum", lambda t: mg.sum(t, axis=0)), ("sum", lambda t: mg.sum(t, axis=-1)), ("sum", lambda t: mg.sum(t, axis=0, keepdims=True)), ("sum", lambda t: mg.sum(t, axis=())), ("prod", lambda t: mg.prod(t, axis=0)),
+                     ("max", lambda t: mg.max(t, axis=0)), ("min", lambda t: mg.min(t, axis=-1)), ("mean", lambda t: mg.mean(t, axis=())), ("cumsum", lambda t: mg.cumsum(t)), ("cumprod", lambda t: mg.cumprod(t)), ("sum", lambda t: t.sum(0))]:
+        try:
+            with mg.no_autodiff:
+                fn0(mg.tensor(1.5))
+        except Exception:
+            continue  # the forward pass refuses this spelling for a 0-d operand: not a case
+        yield (nm0, fn0, [V(())], dict(operand="0-d", call=nm0, note="explicit axis on a 0-d tensor"), None)
     # integer arguments in every representation NumPy accepts (NumPy integer scalars, 0-d / length-1 arrays, tuples)
     for rep, ax in [(np.int64(2), 0), (np.int32(3), None), (np.array(2), 1), (np.array([2]), 0), ([3], 1), ((1, 2), 0), (np.array([1, 2]), 0), (np.int64(0), 0), (np.array([2, 0, 1]), np.int64(1))]:
         yield ("repeat", (lambda rep=rep, ax=ax: lambda t: mg.repeat(t, rep, axis=ax))(), [V((2, 3))], dict(repeats=repr(rep), axis=repr(ax), representation=type(rep).__name__), None)
